@@ -26,7 +26,8 @@ RULE = ("schemas of the C01 family (abstract types provided by a generated "
         "section-datatype stage, load with %import, load with overrides, "
         "mutate every list/dict reachable from the last returned "
         "configuration}.  Non-trivial = sequence with at least two loads; "
-        "distinct_nontrivial = distinct step-kind sequences.")
+        "distinct_nontrivial = distinct step-kind sequences."
+        ' Worlds have an application type with a keyed-default wildcard key that a component type extends under another key type, a component imported by the schema itself (and again by texts), and a pair of components naming one datatype in full / by its last word.')
 LEVEL_TEXT = ("Every step of every generated history is executed on the "
               "long-lived schema object and on a fresh copy; outcomes must "
               "agree and the schema's digest (types, children, defaults, "
